@@ -508,16 +508,19 @@ class _LegacyTransport(_httpx.AsyncBaseTransport):
         if k is None:
             return _httpx.Response(202, content=b"", request=request)
         wk = self.wire[k]
-        t0 = loop.time()
+        # the event stream is ONE byte stream: this step's bytes go out after everything written for earlier steps
+        # (a trailing blank line of the previous event may still be on its way when the client already sends again)
+        t0 = max(loop.time(), getattr(w, "stream_tail", 0.0))
         chunks = wk["legacy_chunks"]
         for j, ch in enumerate(chunks):
             self.pushed.append(ch)
             w.push_at(t0 + 0.01 * (j + 1), ch)
+        w.stream_tail = t0 + 0.01 * len(chunks)
         if wk["legacy_mode"] == "200":
-            await asyncio.sleep(0.01 * (len(chunks) + 2))
+            await asyncio.sleep(max(0.0, t0 - loop.time()) + 0.01 * (len(chunks) + 2))
             return _httpx.Response(200, headers={"content-type": "application/json"}, content=wk["legacy_post_body"],
                                    request=request)
-        delay = 0.01 * (len(chunks) + 1) * wk["ack"]
+        delay = max(0.0, t0 - loop.time()) + 0.01 * (len(chunks) + 1) * wk["ack"]
         if delay > 0:
             await asyncio.sleep(delay + 0.005)
         return _httpx.Response(202, content=b"", request=request)
